@@ -10,6 +10,11 @@ structure St where
   g : Option Digraph := none
   cap : Nat := 1
 
+def dirStr : Dir → String
+  | .inb => "in"
+  | .outb => "out"
+  | .both => "both"
+
 def splitArrow (ts : List String) : List String × List String :=
   (ts.takeWhile (· ≠ "=>"), (ts.dropWhile (· ≠ "=>")).drop 1)
 
@@ -70,8 +75,8 @@ def step (st : St) (ts : List String) : St × String :=
     match u.toNat?, v.toNat?, parseDir d, out with
     | some u, some v, some d, [b] =>
       let want := expectCanReach g u v d
-      if b == "1" then (if want then (st, "ok") else (st, s!"reject canreach-false-positive {u} {v} {repr d}"))
-      else if b == "0" then (if want then (st, s!"reject canreach-false-negative {u} {v} {repr d}") else (st, "ok"))
+      if b == "1" then (if want then (st, "ok") else (st, s!"reject canreach-false-positive {u} {v} {dirStr d}"))
+      else if b == "0" then (if want then (st, s!"reject canreach-false-negative {u} {v} {dirStr d}") else (st, "ok"))
       else (st, "reject bad-output " ++ b)
     | _, _, _, _ => (st, "reject bad-output " ++ " ".intercalate out)
   | ["reach", u, d] =>
